@@ -17,7 +17,7 @@ from harness import c19lib as L
 THEOREMS = ["C19_trace_partial", "C19_trace_refuted", "C19_codec_union_refuted", "C19_mixin_once", "C19_context",
             "C19_union_context_refuted", "C19_de_trace_partial", "C19_de_post_once", "C19_codec_subclass_refuted",
             "C19_subclass_context_refuted", "C19_disc_config_dispatch", "C19_disc_annotated_dispatch",
-            "C19_disc_no_variant"]
+            "C19_disc_union_dispatch", "C19_disc_no_variant"]
 
 # ---------------------------------------------------------------------------
 # generators
@@ -161,12 +161,10 @@ def gen_chain_schema(rng):
     return schema
 
 
-# A discriminator (class-level or Annotated) *without* a field is only generated where the mixin has no format-specific method:
-# with DataClassMessagePackMixin/ORJSON/TOML, variant.__mashumaro_from_dict_<fmt>__ resolves through the MRO to the
-# base's own dispatcher (the variant's unpacker is never compiled because no AttributeError occurs), every attempt
-# ends in a swallowed RecursionError and from_msgpack answers SuitableVariantNotFoundError after exponential time
-# (a /repo defect outside C19, reported).
-NO_FORMAT_METHOD = ("dict", "json", "yaml", "plain")
+# Kinds in which discriminators without a field are generated: all of them since /repo 233f7d4 (before that fix
+# variant.__mashumaro_from_dict_<fmt>__ resolved through the MRO to the base's dispatcher for the MessagePack/ORJSON/TOML
+# mixins: exponential time and SuitableVariantNotFoundError; seeded/revert-233f7d4 brings it back).
+NO_FORMAT_METHOD = tuple(KINDS)
 
 
 def conv_disc(t, p, wf, sup):
@@ -285,13 +283,29 @@ def gen_hier_schema(rng):
         classes.append({"parent": parent, "own_fields": own, "own_hooks": hooks,
                         "own_ctx": rng.choice([None, None, None, True] + ([] if base_ctx else [False])),
                         "tag": rng.random() < 0.85})
+    # nested class-level discriminators: a subclass with subclasses of its own becomes a dispatcher too
+    for c in range(2, 2 + nsub):
+        if L.descendants(schema, c) and rng.random() < 0.5:
+            if rng.random() < 0.5 and kind in NO_FORMAT_METHOD:
+                classes[c]["disc"] = "nofield"
+            elif callable_variants(schema, c, [d for d in L.descendants(schema, c) if classes[d].get("tag")]):
+                classes[c]["disc"] = "field"
     r = rng.random()
-    if r < 0.3 and callable_variants(schema, 1, L.disc_variants(schema, 1, True, False)):
+    if r < 0.12 and callable_variants(schema, 1, L.disc_variants(schema, 1, True, False, True)):
+        classes[1]["disc"], classes[1]["tag"], classes[1]["tagger"] = "field", False, True     # variant_tagger_fn
+    elif r < 0.3 and callable_variants(schema, 1, L.disc_variants(schema, 1, True, False)):
         classes[1]["disc"], classes[1]["tag"] = "field", False
     elif r < 0.42 and kind in NO_FORMAT_METHOD:
         classes[1]["disc"], classes[1]["tag"] = "nofield", False
 
     def base_ty():
+        if not classes[1].get("disc") and rng.random() < 0.4:
+            # a discriminated union: Annotated[Union[Base, Leaf], Discriminator(...)]
+            wf = rng.random() < 0.6 or kind not in NO_FORMAT_METHOD
+            sb, sp_ = rng.choice([(True, False), (True, True), (False, True)])
+            u = ["discu", canon_union(schema, rng.sample([0, 1], 2)), wf, sb, sp_]
+            if discu_callable(schema, u):
+                return u
         if classes[1].get("disc") or rng.random() < 0.3:
             return ["dc", 1]
         wf, sup = rng.random() < 0.6 or kind not in NO_FORMAT_METHOD, rng.random() < 0.4
@@ -316,11 +330,18 @@ def callable_variants(schema, c, vs):
     return ok
 
 
+def discu_callable(schema, t):
+    """variants of a discriminated union whose to_dict accepts the keywords of at least one member's call expression"""
+    vs = L.discu_variants(schema, t[1], t[2], t[3], t[4])
+    return [v for v in vs if any((L.ctx_on(schema, v) or not L.ctx_on(schema, m))
+                                 and set(L.class_flags(schema, m)) <= set(L.class_flags(schema, v)) for m in t[1])]
+
+
 def substitutable(schema, c):
     """subclasses whose instances may stand at a position declared with class c: same context option and the same
     other code generation options (the keyword list of the call is computed from the declared class), finite"""
     return [d for d in L.descendants(schema, c)
-            if L.ctx_on(schema, d) == L.ctx_on(schema, c) and L.class_flags(schema, d) == L.class_flags(schema, c)
+            if not schema["classes"][d].get("disc") and L.ctx_on(schema, d) == L.ctx_on(schema, c) and L.class_flags(schema, d) == L.class_flags(schema, c)
             and not any(reaches_class(schema, L.name_ty(schema, n), c) for n in L.flat_fields(schema, d))]
 
 
@@ -397,11 +418,17 @@ def gen_value(rng, schema, t, depth, uid, toml, maxd=4):
         return ["list", t[1], [gen_value(rng, schema, t[2], depth + 1, uid, toml, maxd) for _ in range(n)]]
     if t[0] == "union":
         return gen_value(rng, schema, ["dc", rng.choice(t[1])], depth, uid, toml, maxd)
+    if t[0] == "discu":
+        vs = discu_callable(schema, t)
+        return gen_value(rng, schema, ["dc!", rng.choice(vs)], depth, uid, toml, maxd)
     c = t[1]
-    if t[0] == "disc":
+    if t[0] == "dc!":
+        pass      # exactly this class
+    elif t[0] == "disc":
         c = rng.choice(callable_variants(schema, c, L.disc_variants(schema, c, t[2], t[3])))
     elif schema["classes"][c].get("disc"):
-        c = rng.choice(callable_variants(schema, c, L.disc_variants(schema, c, schema["classes"][c]["disc"] != "nofield", False)))
+        c = rng.choice(callable_variants(schema, c, L.disc_variants(schema, c, schema["classes"][c]["disc"] != "nofield", False,
+                                                                    bool(schema["classes"][c].get("tagger")))))
     elif rng.random() < 0.12:
         ds = substitutable(schema, c)      # an instance of a subclass where the parent is declared
         if ds:
@@ -586,19 +613,44 @@ def fixed_cases():
 # one case = (schema, src, root_ty, value/wire, entry)
 # ---------------------------------------------------------------------------
 
+class CaseTimeout(BaseException):
+    """not an Exception: must pass through the `except Exception: pass` of generated try-each code"""
+
+
+CASE_TIMEOUT_S = 8
+
+
+def _on_alarm(signum, frame):
+    raise CaseTimeout()
+
+
 def evaluate(case, mod=None):
-    """runs the real library on a case; returns (res, verdict) where verdict is None or (what, signature)"""
+    """runs the real library on a case; returns (res, verdict) where verdict is None or (what, signature).
+    A call that does not return within CASE_TIMEOUT_S seconds (unbounded recursion retried at every level takes
+    exponential time) is reported as a failure instead of hanging the check."""
+    import signal
     own = mod is None
     if own:
         mod = L.load_module(case["src"])
+    old = signal.signal(signal.SIGALRM, _on_alarm)
+    signal.setitimer(signal.ITIMER_REAL, CASE_TIMEOUT_S, 0.5)      # re-fires: a CaseTimeout raised at the recursion limit can get lost
     try:
-        if case["entry"]["dir"] == "ser":
-            res = L.run_ser(mod, case["schema"], case["root_ty"], case["value"], case["entry"])
-            verdict = L.check_ser(case["schema"], case["root_ty"], case["value"], case["entry"], res)
-        else:
-            res = L.run_de(mod, case["schema"], case["root_ty"], case["wire"], case["entry"])
-            verdict = L.check_de(case["schema"], case["root_ty"], case["wire"], case["entry"], res)
+        try:
+            if case["entry"]["dir"] == "ser":
+                res = L.run_ser(mod, case["schema"], case["root_ty"], case["value"], case["entry"])
+                signal.setitimer(signal.ITIMER_REAL, 0)
+                verdict = L.check_ser(case["schema"], case["root_ty"], case["value"], case["entry"], res)
+            else:
+                res = L.run_de(mod, case["schema"], case["root_ty"], case["wire"], case["entry"])
+                signal.setitimer(signal.ITIMER_REAL, 0)
+                verdict = L.check_de(case["schema"], case["root_ty"], case["wire"], case["entry"], res)
+        except CaseTimeout:
+            res = {"ok": False, "exc": f"no answer within {CASE_TIMEOUT_S}s", "log": [], "out": None, "result": None, "obs": []}
+            verdict = (f"the call did not return within {CASE_TIMEOUT_S}s (endless recursion retried at every level?)",
+                       {"direction": case["entry"]["dir"], "via": case["entry"]["via"], "kind": "timeout"})
     finally:
+        signal.setitimer(signal.ITIMER_REAL, 0)
+        signal.signal(signal.SIGALRM, old)
         if own:
             L.unload_module(mod)
     return res, verdict
@@ -636,7 +688,9 @@ def run(ctx: vlib.Ctx):
         "List,Tuple,Dict / Optional / Union of dataclasses, recursion spelled by name or typing.Self; PEP 604, builtin/abc "
         "generics, Annotated; one type per field name so that look-alike classes arise); (2) context/flag chains of depth 3-5; "
         "(3) class hierarchies: subclass instances at base-typed positions, class-level (Config) discriminators with/without "
-        "field, Annotated discriminators (field / no field / include_supertypes), tags present or missing; (4) unions whose "
+        "field, with variant_tagger_fn, nested (a variant that is itself a dispatcher), Annotated discriminators over a class "
+        "(field / no field / include_supertypes) and over a Union (include_subtypes and/or include_supertypes), tags present "
+        "or missing; (4) unions whose "
         "members differ in their keyword-adding options; (5) fixed cases for every known finding - x mixin kind "
         "(dict/json/orjson/msgpack/yaml/toml/plain) x hooks returning their argument or a new object x random value tree "
         "(<= 45 instances) x every entry point (mixin methods with/without context= and dialect=, 6 codecs with root shapes "
@@ -680,14 +734,18 @@ def run(ctx: vlib.Ctx):
     # 2+3. cases
     rng = ctx.rng
     thorough = not ctx.quick()
-    n_schemas = ctx.budget(60, 450)
+    n_schemas = ctx.budget(60, 380)
     vals_per = ctx.budget(3, 4)
     ser_cases, de_cases = [], []     # (case dict, res)
     envs = []                        # coq env text per schema index
     t_lib = 0.0
 
+    timeouts = [0]
+
     def do_schema(si, schema, roots):
         nonlocal t_lib
+        if timeouts[0] >= 4:
+            return      # the library hangs on input after input: four failing inputs are recorded, stop feeding it
         src = L.class_source(schema)
         try:
             mod = L.load_module(src)
@@ -713,6 +771,9 @@ def run(ctx: vlib.Ctx):
             for x in schema["names"].values())))
         ctx.hist("schema_features", "config-discriminator with field", int(any(k.get("disc") in ("field", True) for k in schema["classes"])))
         ctx.hist("schema_features", "config-discriminator without field", int(any(k.get("disc") == "nofield" for k in schema["classes"])))
+        ctx.hist("schema_features", "discriminated Union", int(any("discu" in json.dumps(x["ty"]) for x in schema["names"].values())))
+        ctx.hist("schema_features", "variant_tagger_fn", int(any(k.get("tagger") for k in schema["classes"])))
+        ctx.hist("schema_features", "nested class-level discriminator", int(any(k.get("disc") and k["parent"] is not None for k in schema["classes"])))
         ctx.hist("schema_features", "Annotated discriminator", int(any("disc" in json.dumps(x["ty"]) for x in schema["names"].values())))
         ctx.hist("schema_features", "typing.Self recursion", int(any(x.get("self") for x in schema["names"].values())))
         ctx.hist("schema_features", "class-name recursion", int(any(
@@ -733,12 +794,12 @@ def run(ctx: vlib.Ctx):
                             case["value"] = value
                             case["wire"] = L.wire_of(schema, value, drop_default_none=(L.fmt_of(entry) == "toml" or rng.random() < 0.3))
                         t0 = time.time()
-                        # /repo shares one discriminator registry between formats: after from_dict has filled it,
-                        # from_msgpack/from_toml/from_json(orjson) of the same class recurse forever (a call-history
-                        # defect outside C19, reported to C14).  Those entries get a module of their own.
-                        fresh = (schema.get("has_disc") and entry["via"] == "mixin" and entry["method"] != "from_dict"
-                                 and schema["kind"] in ("orjson", "msgpack", "toml"))
-                        res, verdict = evaluate(case, None if fresh else mod)
+                        if timeouts[0] >= 4:
+                            return
+                        res, verdict = evaluate(case, mod)
+                        if verdict is not None and verdict[1].get("kind") == "timeout":
+                            timeouts[0] += 1
+                            ctx.notes.append(f"timeout {timeouts[0]}: {entry} on schema {si}")
                         t_lib += time.time() - t0
                         ctx.count(shape_key(schema, root_ty, value, entry))
                         ctx.hist("entry_points", direction + ":" + (entry.get("method") or "codec-" + entry["codec"])
@@ -774,7 +835,7 @@ def run(ctx: vlib.Ctx):
         si += 1
 
     # context / flag chains (depth 3-5, every class with its own opt-ins and hook profile)
-    for _ in range(ctx.budget(45, 350)):
+    for _ in range(ctx.budget(45, 280)):
         schema = gen_chain_schema(rng)
         root_ty = ["dc", len(schema["classes"]) - 1]
         roots = [(root_ty, gen_value_capped(rng, schema, root_ty, schema["toml_safe"], maxd=12)) for _ in range(2)]
@@ -786,7 +847,7 @@ def run(ctx: vlib.Ctx):
         si += 1
 
     # class hierarchies: subclass instances under base-typed fields, class-level and Annotated discriminators
-    for _ in range(ctx.budget(45, 400)):
+    for _ in range(ctx.budget(45, 330)):
         schema = gen_hier_schema(rng)
         n = len(schema["classes"])
         roots = []
@@ -804,7 +865,7 @@ def run(ctx: vlib.Ctx):
         si += 1
 
     # unions whose members differ in their keyword-adding options
-    for _ in range(ctx.budget(30, 200)):
+    for _ in range(ctx.budget(30, 150)):
         schema = gen_union_flags_schema(rng)
         root_ty = ["dc", len(schema["classes"]) - 1]
         do_schema(si, schema, [(root_ty, gen_value_capped(rng, schema, root_ty, schema["toml_safe"])) for _ in range(2)])
